@@ -362,6 +362,9 @@ func (c *Ctx) Finish() {
 	if len(c.samples) == 0 {
 		cov["samples"] = []interface{}{"(no case was produced)"}
 	}
+	if c.assume == nil {
+		c.assume = []string{"the Go runtime and jsight-schema-core v0.2.0 behave as built; hooks only observe"}
+	}
 	ev := map[string]interface{}{
 		"property_id": c.ID,
 		"tier":        c.Tier,
